@@ -453,14 +453,14 @@ class _Scipy(types.ModuleType):
 
 
 class Loader:
-    def __init__(self, repo=REPO, overrides=None, real_modules=()):
+    def __init__(self, repo=REPO, overrides=None, real_modules=(), symbolic=()):
         self.repo = repo
         self.modules = {}
         self.sha = {}
         self.dropped = []
         self.loops = {}
         self.overrides = dict(overrides or {})   # module name -> replacement object (ghost libraries)
-        self.real = set(REAL_EVO) | set(real_modules)
+        self.real = (set(REAL_EVO) | set(real_modules)) - set(symbolic)
         self.originals = {}                       # qualname -> original function
         self.call_depth = 0
         self.cut_calls = True
